@@ -368,6 +368,7 @@ var protoExempt = map[string]map[string]string{
 	"erpc/proto/thriftproto.tStructProto": {
 		"pack:BodyCodec": "body codec fixed to thrift by construction", "unpack:SetBodyCodec": "sets the fixed thrift codec id",
 		"pack:XferPipe": "transfer pipe not supported: rejected with an error when non-empty", "unpack:XferPipe": "transfer pipe not supported",
+		"pack:MarshalBody": "the body is written directly as a thrift struct (m.Body().(thrift.TStruct).Write)",
 	},
 }
 
